@@ -140,7 +140,14 @@ pub fn lockstep(p: &Prog, text: &str) -> Result<Matched, String> {
         let t = &p.toks[i];
         tok_line.push(line);
         tok_col.push(pos - line_start);
-        if matches!(t.kind.as_str(), "Int" | "Hex" | "Char") {
+        if matches!(t.kind.as_str(), "Int" | "Hex" | "Char") && literal_value(p, i).as_deref() == Some("?") {
+            // a character literal outside ASCII: the specification gives no value, the lexeme must survive as it is
+            if text[pos..].starts_with(&t.spell) {
+                pos += t.spell.len();
+            } else {
+                return Err(format!("token {i}: literal {:?} expected, found {:?}", t.spell, &text[pos..].chars().take(12).collect::<String>()));
+            }
+        } else if matches!(t.kind.as_str(), "Int" | "Hex" | "Char") {
             let want: u64 = literal_value(p, i).and_then(|v| v.parse().ok()).ok_or("literal without value")?;
             match parse_literal(&text[pos..]) {
                 Some((v, n)) if v == want => pos += n,
@@ -423,6 +430,35 @@ pub fn run(cases: Vec<(String, Value)>, max_fail: usize, opts: &HashMap<String, 
                     out.failures.push(fail("C11", "not-canonical", "", json!({"layouts": [n0, nm], "a": t0, "b": t})));
                     break;
                 }
+            }
+        }
+        // C11: re-layouts of the FORMATTED text that change line ends only (CRLF everywhere, CRLF on the first line
+        // only, no final line end): the token sequence is the same, so the canonical text is t0 and the answer is
+        // an edit producing it, never null
+        if let Some((_, t0)) = canon_texts.first().cloned() {
+            let mut variants: Vec<(&str, String)> = vec![("formatted+crlf", t0.replace('\n', "\r\n")), ("formatted+crlf-first-line", t0.replacen('\n', "\r\n", 1)),
+                                                        ("formatted-final-line-end", t0.trim_end_matches('\n').to_string())];
+            variants.retain(|(_, v)| *v != t0);
+            for (vi, (vname, vtext)) in variants.iter().enumerate() {
+                let uri = format!("file:///fmtv{vi}.spl");
+                live.notify("textDocument/didOpen", json!({"textDocument": {"uri": uri, "languageId": "spl", "version": 1, "text": vtext}}));
+                id += 1;
+                out.evals += 1;
+                let ctx = json!({"layout": vname, "text": vtext, "insertSpaces": true, "tabSize": 4});
+                match live.request(id, "textDocument/formatting", json!({"textDocument": {"uri": uri}, "options": {"tabSize": 4, "insertSpaces": true}}), step) {
+                    Ok(v) => {
+                        let edits = v["result"].as_array().cloned().unwrap_or_default();
+                        let got = edits.first().and_then(|e| e["newText"].as_str()).map(|x| x.to_string());
+                        if v.get("error").is_some() || edits.len() != 1 || got.as_deref() != Some(t0.as_str()) {
+                            out.failures.push(fail("C11", "not-canonical", vname, json!({"ctx": ctx, "canonical": t0, "got": v.get("result")})));
+                        }
+                    }
+                    Err(why) => {
+                        out.failures.push(fail("C11", "no-answer", "", json!({"ctx": ctx, "why": why})));
+                        break;
+                    }
+                }
+                live.notify("textDocument/didClose", json!({"textDocument": {"uri": uri}}));
             }
         }
         let _ = live.finish(id + 1, step);
